@@ -114,7 +114,7 @@ func (sc *Scenario) Run(devs []vrt.Dev, labels bool) *ScenarioResult {
 		res.Signs = append(res.Signs, SignRec{idx, append([]byte{}, msg...), vrt.VNow()})
 	}
 	defer func() { ownSignHook = nil }()
-	res.S = vrt.Run(vrt.Options{Devs: devs, Start: start, MaxSteps: 2000000, Until: until, Labels: labels, Watchdog: 30 * time.Second}, func() {
+	res.S = vrt.Run(vrt.Options{Devs: devs, Start: start, MaxSteps: 2000000, Until: until, Labels: labels, Watchdog: 60 * time.Second}, func() {
 		defer vrt.SetEarlyTimers(sc.EarlyTimers) // only once every node is built and started
 		ctx := context.Background()
 		var script []Fault
